@@ -263,10 +263,23 @@ def check_register_reduce(ctx, case):
         if op == 'dot':
             return fxpmath.dot(a, b, out=mkreg()), a.dot(b, out_like=mkreg()), np.dot(a, b, out=mkreg()), mkreg()(a.dot(b))
         fn = getattr(fxpmath, op)
-        return fn(a, out=mkreg()), getattr(a, op)(out_like=mkreg()), getattr(np, op)(a, out=mkreg()), mkreg()(fn(a))
+        # the operand itself is the wrap register: 'same' sizing keeps its format and its wrap configuration
+        aw = F(np.array(kas, dtype=np.int64), fa[0], fa[1], fa[2], raw=True, overflow='wrap', op_sizing='same')
+        return fn(a, out=mkreg()), getattr(a, op)(out_like=mkreg()), getattr(np, op)(a, out=mkreg()), mkreg()(fn(a)), getattr(aw, op)()
     ok, res = ctx.guard(case, do, sig_prefix=sig + '/')
     if not ok:
         return
+    if len(res) == 5:
+        z = res[4]
+        try:
+            ks = C.flat(C.codes(z))
+        except ValueError as e:
+            ctx.fail('%s/same-sizing/non-integer-code' % sig, case, {'error': str(e)})
+            return
+        want_same = [M.ROUND(v * M.pow2(fa[2]), 'trunc') for v in exact]
+        if C.fmt_of(z) != (bool(fa[0]), fa[1], fa[2]) or len(ks) != len(want_same) or not all(wrap_ok(k, r, fa) for k, r in zip(ks, want_same)):
+            ctx.fail('%s/same-sizing/congruence' % sig, case, {'rounded': [str(r) for r in want_same], 'codes': [str(k) for k in ks], 'fmt': C.fmt_of(z)})
+            return
     for name, z in zip(('out', 'method-out_like', 'numpy-out', 'store-call'), res):
         try:
             ks = C.flat(C.codes(z))
